@@ -148,9 +148,10 @@ def not_left_to_user(ctx: Any, st: Any, op: str) -> None:
         ctx.fail('automated-step-left-to-the-user', lambda: f'{op} pending although {auto.name} is automated; last ops {[type(o).__name__ for o in st.operations[-4:]]}')
 
 
-def run_hand(ctx: Any, st: Any, script: str, reverse: bool, limit: int) -> None:
+def run_hand(ctx: Any, st: Any, script: str, reverse: bool, limit: int, oot: bool = False) -> None:
     k = 0
     steps = 0
+    oot_mucked = False
     shown_voluntarily: list = []
     voluntary_ops: list = []
     check_phase(ctx, st, 'after construction')
@@ -186,6 +187,21 @@ def run_hand(ctx: Any, st: Any, script: str, reverse: bool, limit: int) -> None:
                     ctx.cover('voluntary-show')
                     check_phase(ctx, st, f'step {steps} voluntary show')
                     continue
+            if oot and op == 'show_or_muck_hole_cards' and len(st.showdown_indices) >= 2 \
+                    and ctx.flag(f'oot{len(st.operations)}'):
+                # the documented player_index argument: a seat other than the one whose turn it is tables or
+                # (once per hand, at a final-street showdown nobody is all-in at) mucks; the hand must go on
+                j = st.showdown_indices[-1]
+                may_muck = (not oot_mucked and not st.all_in_status and st.street is st.streets[-1])
+                kind = ctx.choice(f'ootk{len(st.operations)}', 3 if may_muck else 2)
+                status = (None, True, False)[kind]
+                if st.can_show_or_muck_hole_cards(status, j):
+                    C.call(ctx, st.show_or_muck_hole_cards, status, j)
+                    oot_mucked = oot_mucked or kind == 2
+                    ctx.cover('out-of-turn')
+                    ctx.check(len(st.operations) > n_ops, 'no-progress')
+                    check_phase(ctx, st, f'step {steps} out of turn')
+                    continue
             if op == 'select_runout_count':
                 # the players' choice: any preference is a legal operation
                 if st.player_count == 2:
@@ -204,7 +220,7 @@ def run_hand(ctx: Any, st: Any, script: str, reverse: bool, limit: int) -> None:
 
 def h_phases(ctx: Any, code: str, n: int, script: str, stacks: Any, mode: str = 'C', boards: int = 1,
              deck: str = 'identity', reverse: bool = False, fixed: Any = None, sym_stack: int = -1,
-             antes: Any = 1) -> None:
+             antes: Any = 1, oot: bool = False) -> None:
     C.native_hands()
     C.set_deck_order(deck)
     warnings.simplefilter('ignore')
@@ -219,7 +235,7 @@ def h_phases(ctx: Any, code: str, n: int, script: str, stacks: Any, mode: str = 
     except Exception as e:
         C.reraise_control(e)
         ctx.fail('constructor-raised', lambda: f'{type(e).__name__}: {e} subset={autos.cache}')
-    run_hand(ctx, st, script, reverse, 80 + 60 * n)
+    run_hand(ctx, st, script, reverse, 80 + 60 * n, oot)
     ctx.check(not st.status, 'not-terminal')
     ctx.cover('terminal')
 
@@ -372,6 +388,13 @@ def _jobs(fn: str, tier: str, cover: list) -> list[dict]:
 
 def jobs(tier: str, seed: int) -> list[dict]:
     out = _jobs('h_phases', tier, ['terminal'])
+    # showdown out of turn (explicit seat): showing automation off, the other ten bits symbolic
+    off = {'HOLE_CARDS_SHOWING_OR_MUCKING': False}
+    for code, n, stacks, script, mode in (('NT', 3, (50, 50, 50), 'ccc', 'T'), ('NT', 3, (50, 50, 50), 'ccc', 'C'),
+                                          ('F7S', 3, (40, 40, 40), 'bcc', 'C'), ('NT', 3, (50, 20, 5), 'Rcc', 'C')):
+        out.append(dict(name=f'out-of-turn/{code}/n{n}/{script}/{mode}', fn='h_phases', traced=False,
+                        params=dict(code=code, n=n, script=script, stacks=stacks, mode=mode, fixed=off, oot=True),
+                        budget_s=600 if tier == 'quick' else 1200, must_cover=['terminal', 'out-of-turn']))
     if tier == 'thorough':
         for j in list(out):
             if j.get('traced') is False:
